@@ -298,8 +298,8 @@ def universe2 : List M := level (level leaves)
 /-- the separating value domain -/
 def domain : List Val :=
   [.none, .int 0, .int 1, .int 2, .str c!"a", .list [], .list [.int 1], .list [.int 0], .list [.int 2, .str c!"a"],
-   .list [.list [.int 1]], .dict [c!"k"] [.int 1], .dict [c!"k"] [.int 0], .dict [c!"k"] [.list [.int 1]],
-   .list [.dict [c!"k"] [.int 1]], .dict [] []]
+   .list [.list [.int 1]], .dict [.str c!"k"] [.int 1], .dict [.str c!"k"] [.int 0], .dict [.str c!"k"] [.list [.int 1]],
+   .list [.dict [.str c!"k"] [.int 1]], .dict [] []]
 
 /-- the matcher accepts the value (an exception is not an acceptance) -/
 def accepts (m : M) (v : Val) : Bool :=
@@ -415,6 +415,15 @@ theorem faithful_refuted_unescaped_string_argument :
       (describeSt false (.startsWith c!"a\" or to start with \"b") Tr.plain).1 ∧
     accepts (.anyOf [.startsWith c!"a", .startsWith c!"b"]) (.str c!"a") ≠
       accepts (.startsWith c!"a\" or to start with \"b") (.str c!"a") := by decide
+
+/-- D33 (open finding, outside the universe above: needs an expected dict with a key that is not a `str`): `json.dumps` writes the
+    keys `1`, `None`, `True` as `"1"`, `"null"`, `"true"`, so `equal_to({1: "a"})` reads exactly like `equal_to({"1": "a"})` and
+    accepts other values. -/
+theorem faithful_refuted_dict_key_type :
+    (describeSt false (.equalTo (.dict [.int 1] [.str c!"a"])) Tr.plain).1 =
+      (describeSt false (.equalTo (.dict [.str c!"1"] [.str c!"a"])) Tr.plain).1 ∧
+    accepts (.equalTo (.dict [.int 1] [.str c!"a"])) (.dict [.int 1] [.str c!"a"]) ≠
+      accepts (.equalTo (.dict [.str c!"1"] [.str c!"a"])) (.dict [.int 1] [.str c!"a"]) := by decide
 
 theorem mem_level_not {prev : List M} {m : M} (h : m ∈ prev) : M.not m ∈ level prev := by
   simp only [level, unary, List.mem_append, List.mem_flatMap, List.mem_map, List.mem_cons]
